@@ -106,7 +106,7 @@ theorem flatRedirects_single (rd : Redir) (cwd : String) (r : Bool) :
       | .heredoc quoted content => if !quoted then [.text false (some content) cwd r] else []
       | .redirect op tgt =>
         (match tgt with
-         | some t => flatWord s t cwd r ++ (if r then [] else [.redir op (wordValue t) cwd])
+         | some t => flatWord s t cwd r ++ (if r || Py.startsWith t.value "&" then [] else [.redir op (wordValue t) cwd])
          | none => if r then [] else [.redir op "" cwd])
       | .other _ => []) := by
   unfold flatRedirects
